@@ -622,8 +622,34 @@ func (prop) Generate(r *core.RNG, tier string) []json.RawMessage {
 	for _, c := range corner() {
 		out = append(out, enc(c))
 	}
-	for _, c := range genericArgsInputs(r.Fork(), tier) {
+	// field names of every legal identifier shape; OutputFileBaseName x three runs (names.go)
+	for _, c := range fieldNameInputs(r.Fork(), tier) {
 		out = append(out, enc(c))
+	}
+	for _, c := range baseNameInputs(r.Fork(), tier) {
+		out = append(out, enc(c))
+	}
+	for _, c := range aliasInputs(r.Fork(), tier) {
+		out = append(out, enc(c))
+	}
+	// a third of the generic / tree / random packages below is renamed with names of mixed shapes, a fifth of the random
+	// stream is generated under another output file base name, a quarter of it has 40% of its fields declared through
+	// aliases (own generator: the stream itself stays as it was)
+	rn := r.Fork()
+	vary := func(in Input, names, base bool) Input {
+		if names && rn.Chance(33) {
+			in = renameFields(rn.Fork(), in, pickMixed)
+		}
+		if base && rn.Chance(20) {
+			in.Base = core.Pick(rn, baseNames)
+		}
+		if base && in.ShadowPkg == "" && rn.Chance(25) {
+			in = aliasify(rn.Fork(), in, 40)
+		}
+		return in
+	}
+	for _, c := range genericArgsInputs(r.Fork(), tier) {
+		out = append(out, enc(vary(c, true, false)))
 	}
 	// trees of by-value struct dependencies, only the root tagged: the fixed shapes in every field order, then random
 	// trees of fan-out 2-3 and depth 2-3 (a fifth of them with further tags)
@@ -641,7 +667,7 @@ func (prop) Generate(r *core.RNG, tier string) []json.RawMessage {
 		if i%5 == 4 {
 			tagPct = 25
 		}
-		out = append(out, enc(treeInput(r.Fork(), t, r.Uint64()%1000000, tagPct)))
+		out = append(out, enc(vary(treeInput(r.Fork(), t, r.Uint64()%1000000, tagPct), true, false)))
 	}
 	n := 22
 	if tier == "thorough" {
@@ -651,11 +677,11 @@ func (prop) Generate(r *core.RNG, tier string) []json.RawMessage {
 		seed := r.Uint64() % 1000000
 		switch k := r.Intn(100); {
 		case k < 10:
-			out = append(out, enc(outsideInput(r.Fork(), seed)))
+			out = append(out, enc(vary(outsideInput(r.Fork(), seed), true, true)))
 		case k < 18:
-			out = append(out, enc(shadowInput(r.Fork(), seed)))
+			out = append(out, enc(vary(shadowInput(r.Fork(), seed), true, true)))
 		default:
-			out = append(out, enc(randomInput(r.Fork(), seed)))
+			out = append(out, enc(vary(randomInput(r.Fork(), seed), true, true)))
 		}
 	}
 	if tier == "thorough" {
@@ -682,7 +708,7 @@ func (prop) Shrink(raw json.RawMessage) []json.RawMessage {
 	referenced := func(c *Input, name string) bool {
 		for _, d := range c.Decls {
 			for _, f := range d.Fields {
-				if (f.K == KNamed || f.K == KPtr || f.K == KSliceOf) && f.A == name {
+				if (f.K == KNamed || f.K == KPtr || f.K == KSliceOf || f.K == KAlias) && f.A == name {
 					return true
 				}
 				for _, a := range f.Args { // a type argument
@@ -691,8 +717,30 @@ func (prop) Shrink(raw json.RawMessage) []json.RawMessage {
 					}
 				}
 			}
+			if d.Of != nil && (d.Of.A == name || d.Of.B == name) {
+				return true
+			}
+			if d.Of != nil {
+				for _, a := range d.Of.Args {
+					if a == name {
+						return true
+					}
+				}
+			}
 		}
 		return false
+	}
+	// a field declared through an alias: declared with the type the alias denotes
+	for i := range in.Decls {
+		for j, f := range in.Decls[i].Fields {
+			if f.K == KAlias {
+				if r := in.resolve(f); r.K != KAlias {
+					c := clone()
+					c.Decls[i].Fields[j] = r
+					out = append(out, enc(c))
+				}
+			}
+		}
 	}
 	// drop a declaration nobody refers to
 	for i := range in.Decls {
@@ -721,6 +769,34 @@ func (prop) Shrink(raw json.RawMessage) []json.RawMessage {
 				out = append(out, enc(c))
 			}
 		}
+	}
+	// a plain name for a field (F<j> style); the conventional output file base name
+	for i := range in.Decls {
+		for j, f := range in.Decls[i].Fields {
+			if rePlainName.MatchString(f.Name) {
+				continue
+			}
+			for n := 0; ; n++ {
+				cand := fmt.Sprintf("N%d", n)
+				taken := false
+				for _, g := range in.Decls[i].Fields {
+					if g.Name == cand {
+						taken = true
+					}
+				}
+				if !taken {
+					c := clone()
+					c.Decls[i].Fields[j].Name = cand
+					out = append(out, enc(c))
+					break
+				}
+			}
+		}
+	}
+	if in.Base != "" {
+		c := clone()
+		c.Base = ""
+		out = append(out, enc(c))
 	}
 	// clear flags
 	if in.PkgTag {
